@@ -409,30 +409,21 @@ Section Face.
     t <> [] -> c17_face_row_with agg S t data = c17_face_row_body agg S t data.
   Proof. destruct t; [intros H; contradiction|reflexivity]. Qed.
 
-  Theorem c17_face_row_with_spec m t S data :
-    t <> [] ->
+  (* the loop body on ANY list of gathers that (a) consists of (face, corners of that face) pairs and
+     (b) covers every face *)
+  Lemma c17_row_of_gathers_spec m t gs data :
     std_table m t -> c17_nodes_ok t (length data) ->
-    c17_is_argsort (n_nodes_per_face t) S ->
-    exists res, c17_face_row_with agg S t data = Some res /\ length res = length t /\
+    (forall g, In g gs -> exists i, fst g = Z.of_nat i /\ (i < length t)%nat /\ snd g = corners (nth i t [])) ->
+    (forall i, (i < length t)%nat -> In (Z.of_nat i) (map fst gs)) ->
+    exists res, c17_face_row_of_gathers agg gs t data = Some res /\ length res = length t /\
       forall f r, nth_error t f = Some r -> nth_error res f = Some (Some (c17_ref data r)).
   Proof.
-    intros Hne Ht Hn Hs.
-    destruct (c17_gathers_spec t S Hs) as [G1 G2].
-    pose proof Hs as [Hperm _].
-    assert (Hlen : length (n_nodes_per_face t) = length t) by (unfold n_nodes_per_face; apply map_length).
-    rewrite Hlen in Hperm.
-    (* every gathered row is the corner list of a face of t *)
-    assert (Hrow : forall g, In g (c17_gathers_with S t) ->
-              exists i, fst g = Z.of_nat i /\ (i < length t)%nat /\ snd g = corners (nth i t [])).
-    { intros g Hg. rewrite Forall_forall in G2. pose proof (G2 g Hg) as Hc.
-      assert (Hin : In (fst g) S) by (rewrite <- G1; apply in_map; exact Hg).
-      apply (Permutation_in _ Hperm) in Hin. apply c17_in_iota in Hin. destruct Hin as (i & Hi & Hlt).
-      exists i. rewrite Hi, Nat2Z.id in Hc. auto. }
+    intros Ht Hn Hrow Hcover.
     set (G := fun f : Z => c17_ref data (nth (Z.to_nat f) t [])).
-    set (ws := map (fun g => (fst g, G (fst g))) (c17_gathers_with S t)).
+    set (ws := map (fun g => (fst g, G (fst g))) gs).
     assert (Hws : c17_all_some (map (fun g => match c17_gather data (snd g) with
                                       | Some vals => Some (fst g, agg vals)
-                                      | None => None end) (c17_gathers_with S t)) = Some ws).
+                                      | None => None end) gs) = Some ws).
     { unfold ws. rewrite <- c17_all_some_map. f_equal. rewrite map_map.
       apply map_ext_in. intros g Hg. destruct (Hrow g Hg) as (i & Hi & Hlt & Hc).
       rewrite (c17_gather_in data (snd g) d).
@@ -441,7 +432,7 @@ Section Face.
         pose proof (c17_corners_nonneg m t _ Ht Hr) as H0.
         unfold c17_nodes_ok in Hn. rewrite Forall_forall in Hn. pose proof (Hn _ Hr) as H1.
         rewrite Forall_forall in *. intros x Hx. split; auto. }
-    rewrite (c17_face_row_with_body S t data Hne). unfold c17_face_row_body. rewrite Hws.
+    unfold c17_face_row_of_gathers. rewrite Hws.
     eexists. split; [reflexivity|]. split.
     - rewrite c17_scatter_length, repeat_length. reflexivity.
     - intros f r Hf.
@@ -452,11 +443,58 @@ Section Face.
       + rewrite repeat_length. exact Hlt.
       + rewrite H1.
         * unfold G. rewrite Nat2Z.id. rewrite (nth_error_nth _ _ _ Hf). reflexivity.
-        * assert (Hm : map fst ws = S).
-          { unfold ws. rewrite map_map.
-            transitivity (map fst (c17_gathers_with S t)); [apply map_ext; reflexivity|exact G1]. }
-          rewrite Hm.
-          apply (Permutation_in _ (Permutation_sym Hperm)). apply c17_in_iota. exists f. auto.
+        * assert (Hm : map fst ws = map fst gs).
+          { unfold ws. rewrite map_map. apply map_ext. reflexivity. }
+          rewrite Hm. apply Hcover. exact Hlt.
+  Qed.
+
+  Lemma c17_gathers_with_rows t S :
+    c17_is_argsort (n_nodes_per_face t) S ->
+    (forall g, In g (c17_gathers_with S t) ->
+       exists i, fst g = Z.of_nat i /\ (i < length t)%nat /\ snd g = corners (nth i t [])) /\
+    (forall i, (i < length t)%nat -> In (Z.of_nat i) (map fst (c17_gathers_with S t))).
+  Proof.
+    intros Hs. destruct (c17_gathers_spec t S Hs) as [G1 G2]. pose proof Hs as [Hperm _].
+    assert (Hlen : length (n_nodes_per_face t) = length t) by (unfold n_nodes_per_face; apply map_length).
+    rewrite Hlen in Hperm. split.
+    - intros g Hg. rewrite Forall_forall in G2. pose proof (G2 g Hg) as Hc.
+      assert (Hin : In (fst g) S) by (rewrite <- G1; apply in_map; exact Hg).
+      apply (Permutation_in _ Hperm) in Hin. apply c17_in_iota in Hin. destruct Hin as (i & Hi & Hlt).
+      exists i. rewrite Hi, Nat2Z.id in Hc. auto.
+    - intros i Hi. rewrite G1. apply (Permutation_in _ (Permutation_sym Hperm)). apply c17_in_iota. exists i. auto.
+  Qed.
+
+  Theorem c17_face_row_with_spec m t S data :
+    t <> [] ->
+    std_table m t -> c17_nodes_ok t (length data) ->
+    c17_is_argsort (n_nodes_per_face t) S ->
+    exists res, c17_face_row_with agg S t data = Some res /\ length res = length t /\
+      forall f r, nth_error t f = Some r -> nth_error res f = Some (Some (c17_ref data r)).
+  Proof.
+    intros Hne Ht Hn Hs. destruct (c17_gathers_with_rows t S Hs) as [Hrow Hcover].
+    rewrite (c17_face_row_with_body S t data Hne). unfold c17_face_row_body.
+    apply (c17_row_of_gathers_spec m t _ data Ht Hn Hrow Hcover).
+  Qed.
+
+  (* the partitions (and the faces inside a partition) may be processed in ANY order *)
+  Theorem c17_order_free m t S gs data :
+    std_table m t -> c17_nodes_ok t (length data) ->
+    c17_is_argsort (n_nodes_per_face t) S ->
+    Permutation gs (c17_gathers_with S t) ->
+    c17_face_row_of_gathers agg gs t data = c17_face_row_of_gathers agg (c17_gathers_with S t) t data.
+  Proof.
+    intros Ht Hn Hs Hp. destruct (c17_gathers_with_rows t S Hs) as [Hrow Hcover].
+    destruct (c17_row_of_gathers_spec m t _ data Ht Hn Hrow Hcover) as (r2 & E2 & L2 & P2).
+    destruct (c17_row_of_gathers_spec m t gs data Ht Hn) as (r1 & E1 & L1 & P1).
+    - intros g Hg. apply Hrow. apply (Permutation_in _ Hp). exact Hg.
+    - intros i Hi. apply (Permutation_in _ (Permutation_sym (Permutation_map fst Hp))). apply Hcover. exact Hi.
+    - rewrite E1, E2. f_equal. apply nth_error_ext_local. intros f.
+      destruct (nth_error t f) as [r|] eqn:E.
+      + rewrite (P1 f r E), (P2 f r E). reflexivity.
+      + apply nth_error_None in E.
+        assert (H1 : nth_error r1 f = None) by (apply nth_error_None; lia).
+        assert (H2 : nth_error r2 f = None) by (apply nth_error_None; lia).
+        congruence.
   Qed.
 
   Corollary c17_face_row_spec m t data :
@@ -808,3 +846,96 @@ Proof. split; [left; reflexivity|simpl; discriminate]. Qed.
 (* no faces: no array *)
 Example c17_no_faces : c17_face_row (fun l => fold_left Z.add l 0) [] [1; 2; 3] = None.
 Proof. reflexivity. Qed.
+
+(* ------------------------------------------------------------------------- *)
+(* frame, defective variants, dtype table, edge tables with any orientation    *)
+
+(* the call hands the grid's tables back untouched, and calling again gives the same result *)
+Theorem c17_frame {A B} (agg : list A -> B) st (data : list (list A)) :
+  snd (c17_face_call agg st data) = st /\
+  fst (c17_face_call agg (snd (c17_face_call agg st data)) data) = fst (c17_face_call agg st data).
+Proof. split; reflexivity. Qed.
+
+Definition c17_zsum (l : list Z) : Z := fold_left Z.add l 0.
+Definition c17_wit_data1 : list Z := [0;10;20;30;40;50;60;70].
+
+(* (a) sorting the shared n_nodes_per_face in place: partition sizes no longer belong to the faces
+   they are applied to — face 1 (4 corners) is reduced over 3 of them and face 3 (3 corners) over
+   two padding cells, i.e. an IndexError instead of the per-face reduction *)
+Theorem c17_inplace_sort_refuted :
+  std_table 5 c17_wit_table /\ c17_nodes_ok c17_wit_table (length c17_wit_data1) /\
+  In (1, [0;2;3]) (c17_gathers_inplace_sort c17_wit_table) /\
+  nth_error c17_wit_table 1 = Some [0;2;3;4;FILL] /\
+  In (3, [1;0;7;FILL;FILL]) (c17_gathers_inplace_sort c17_wit_table) /\
+  c17_face_row_inplace_sort c17_zsum c17_wit_table c17_wit_data1 = None /\
+  c17_face_row c17_zsum c17_wit_table c17_wit_data1 = Some [Some 30; Some 90; Some 220; Some 80].
+Proof.
+  split; [exact c17_wit_std|]. split; [exact c17_wit_nodes_ok|].
+  split; [vm_compute; auto|]. split; [reflexivity|]. split; [vm_compute; auto 6|].
+  split; vm_compute; reflexivity.
+Qed.
+
+(* (b) applying the sort permutation instead of its inverse when storing: every value is a correct
+   per-face reduction, but of ANOTHER face (faces 1, 2, 3 receive the values of faces 3, 1, 2) *)
+Theorem c17_positional_refuted :
+  c17_face_row_positional c17_zsum c17_wit_table c17_wit_data1 = Some [Some 30; Some 80; Some 90; Some 220] /\
+  c17_face_row c17_zsum c17_wit_table c17_wit_data1 = Some [Some 30; Some 90; Some 220; Some 80].
+Proof. split; vm_compute; reflexivity. Qed.
+
+(* dtype table *)
+Theorem c17_dtype_table a src :
+  (a = C17_all \/ a = C17_any -> c17_result_dtype a src = C17_bool) /\
+  (a = C17_max \/ a = C17_min -> c17_result_dtype a src = src) /\
+  (a = C17_sum \/ a = C17_prod ->
+     c17_result_dtype a src = (if c17_is_float src then src else C17_int64)) /\
+  (a = C17_mean \/ a = C17_std \/ a = C17_var \/ a = C17_median ->
+     c17_is_float (c17_result_dtype a src) = true /\
+     (c17_is_float src = true -> c17_result_dtype a src = src)) /\
+  (c17_is_float src = true -> a <> C17_all -> a <> C17_any -> c17_result_dtype a src = src).
+Proof.
+  repeat split; intros; destruct a, src; simpl in *;
+    repeat match goal with H : _ \/ _ |- _ => destruct H end; try discriminate; try reflexivity; try contradiction.
+Qed.
+
+Example c17_dtype_examples :
+  c17_result_dtype C17_sum C17_bool = C17_int64 /\ c17_result_dtype C17_prod C17_int32 = C17_int64 /\
+  c17_result_dtype C17_mean C17_int64 = C17_float64 /\ c17_result_dtype C17_mean C17_float32 = C17_float32 /\
+  c17_result_dtype C17_all C17_float64 = C17_bool /\ c17_result_dtype C17_max C17_int32 = C17_int32.
+Proof. repeat split; reflexivity. Qed.
+
+(* node -> edge over ANY edge_node table (source-supplied tables keep their own orientation and
+   order): edge e = (a, b) gets agg [v[a]; v[b]] in exactly that orientation *)
+Theorem c17_edge_any_table {A B} (agg : list A -> B) (d : A) (en : list (Z * Z)) (data : list A) :
+  Forall (fun e => 0 <= fst e < Z.of_nat (length data) /\ 0 <= snd e < Z.of_nat (length data)) en ->
+  exists res, c17_edge_row agg en data = Some res /\ length res = length en /\
+    forall e q, nth_error en e = Some q ->
+      nth_error res e = Some (agg [nth (Z.to_nat (fst q)) data d; nth (Z.to_nat (snd q)) data d]).
+Proof.
+  intros H. exists (map (c17_ref_edge agg d data) en). split; [apply c17_edge_row_spec; exact H|].
+  split; [apply map_length|]. intros e q He. rewrite nth_error_map, He. reflexivity.
+Qed.
+
+(* non-vacuity: a table whose second edge is stored (hi, lo); a non-commutative "reduction" shows
+   the orientation is respected *)
+Example c17_edge_orientation :
+  c17_edge_row (fun l => match l with [a; b] => a - b | _ => 0 end) [(0, 1); (2, 1)] [5; 7; 100]
+  = Some [-2; 93].
+Proof. vm_compute. reflexivity. Qed.
+
+(* sizes with GAPS (only 3 and 8) in mixed order: partitions and result *)
+Definition c17_gap_table : table :=
+  [[0;1;2;3;4;5;6;7];[1;2;3;FILL;FILL;FILL;FILL;FILL];[7;6;5;4;3;2;1;0];[4;5;6;FILL;FILL;FILL;FILL;FILL]].
+Example c17_gap_nonvacuous :
+  c17_loop (c17_partitions (n_nodes_per_face c17_gap_table)) = [(3, [1; 3]); (8, [0; 2])] /\
+  c17_face_row c17_zsum c17_gap_table c17_wit_data1 = Some [Some 280; Some 60; Some 280; Some 150].
+Proof. split; vm_compute; reflexivity. Qed.
+
+(* non-vacuity of c17_order_free: the gathers in reverse processing order *)
+Example c17_order_free_nonvacuous :
+  Permutation (rev (c17_gathers c17_wit_table)) (c17_gathers c17_wit_table) /\
+  rev (c17_gathers c17_wit_table) <> c17_gathers c17_wit_table /\
+  c17_face_row_of_gathers c17_zsum (rev (c17_gathers c17_wit_table)) c17_wit_table c17_wit_data1
+  = Some [Some 30; Some 90; Some 220; Some 80].
+Proof.
+  split; [apply Permutation_sym, Permutation_rev|]. split; [vm_compute; discriminate|vm_compute; reflexivity].
+Qed.
